@@ -8,8 +8,9 @@
      mloda/core/abstract_plugins/components/options.py
        Options.add / add_to_group + OptionsValidator.validate_can_add_to_group                       -> opt_add
      mloda/core/core/engine.py
-       Engine.__init__         LinkValidator.validate_links(links); self.links = links (the caller's set object)
-                                                                                                      -> validate_links
+       Engine.__init__         LinkValidator.validate_links(links); self.links = set(links): a PRIVATE copy of the
+                               caller's set; self.global_filter = deepcopy(global_filter): a PRIVATE copy of the
+                               caller's GlobalFilter (filters and collection)                         -> validate_links, plan_call
        _process_feature        identify group; set_compute_framework; set_data_type                   -> phase2_one
        add_feature_to_collection / add_feature_link_to_links   self.links.add(feature.link), only for a
                                feature that is not yet stored (Feature.__eq__)                        -> proc
@@ -22,7 +23,9 @@
 
    Objects: Feature objects and Options objects live in two heaps addressed by position (several features may share
    one Options object; several calls may be given the same Feature objects); the links set and the GlobalFilter
-   (filters: never written; collection: written) are single objects of the world.  api_data is never written by
+   (filters, collection) are single objects of the world.  Planning ADDS links (those attached to stored features) and
+   collection entries, but to the Engine's private copies: the caller's two objects are only read (the copies start
+   from their content).  api_data is never written by
    planning or running and therefore has no cell (the harness snapshot checks that).
 
    Domain of the model (what the generated universes of harness/c07.py contain): feature groups without
@@ -413,19 +416,19 @@ Definition filter_outcome (use_filter : bool) (C : fcoll) (stored : list pfeat) 
 
 Definition plan_call (u : universe) (fuel : nat) (w : world) (c : call) : world * outcome :=
   let nF := List.length (hF w) in let nO := List.length (hO w) in
-  let back (h : heap) (L : list link) (C : fcoll) : world :=
+  let back (h : heap) : world :=
     {| hF := firstn nF (fst h); hO := firstn nO (snd h);
-       w_links := if c_links c then L else w_links w; w_filters := w_filters w;
-       w_coll := if c_filter c then C else w_coll w |} in
+       w_links := w_links w; w_filters := w_filters w; w_coll := w_coll w |} in
   match traverse u fuel w c with
-  | (h1, inl e) => (back h1 (w_links w) (w_coll w), Failed e)
+  | (h1, inl e) => (back h1, Failed e)
   | (h1, inr (st, e)) =>
-    if c_links c && negb (validate_links (w_links w)) then (back h1 (w_links w) (w_coll w), Failed ELinks)
+    if c_links c && negb (validate_links (w_links w)) then (back h1, Failed ELinks)
     else
-      (* Engine.links is the caller's set (or a private one when links=None); the collection is the caller's *)
+      (* Engine.links = set(links) (or a new set when links=None) and Engine.global_filter = deepcopy(global_filter):
+         private copies that start from the content of the caller's objects *)
       let L := apply_links (if c_links c then w_links w else []) (r_ladds (p_r st)) in
       let C := apply_coll (w_coll w) (r_fadds (p_r st)) in
-      (back (p_heap st) L C,
+      (back (p_heap st),
        match e with
        | Some e => Failed e
        | None => filter_outcome (c_filter c) C (p_stored st) L
@@ -449,8 +452,7 @@ Definition outcome_eqb (a b : outcome) : bool :=
   | _, _ => false
   end.
 
-(* ---------------------------------------------------------------- known-defect domains (decidable) ---- *)
-(* what the call records in a collection and the features it stores *)
+(* ---------------------------------------------------------------- what a call adds to the Engine's private copies ---- *)
 Definition call_products (u : universe) (fuel : nat) (w : world) (c : call) : list (key * flt) * list pfeat :=
   match traverse u fuel w c with
   | (_, inr (st, _)) => (r_fadds (p_r st), p_stored st)
@@ -458,21 +460,6 @@ Definition call_products (u : universe) (fuel : nat) (w : world) (c : call) : li
   end.
 Definition touches (stored : list pfeat) (k : key) : bool :=
   existsb (fun p => Nat.eqb (pf_gid p) (fst k) && String.eqb (pf_name p) (snd k)) stored.
-
-(* kf_filter_touched: the shared collection holds, at call entry, an entry under a key (g, n) such that the call stores a
-   feature named n in group g.  (filter_reuse_partial is proved outside this domain.) *)
-Definition kf_filter_touched (u : universe) (fuel : nat) (w : world) (c : call) : bool :=
-  c_filter c && existsb (fun kv => touches (snd (call_products u fuel w c)) (fst kv)) (w_coll w).
-
-(* kf_filter (narrower; what the harness attributes to the known finding): ... and that entry holds a filter the call
-   itself does not record under that key. *)
-Definition kf_filter (u : universe) (fuel : nat) (w : world) (c : call) : bool :=
-  c_filter c &&
-  let (adds, stored) := call_products u fuel w c in
-  existsb (fun kv => touches stored (fst kv) && negb (fset_sub (snd kv) (coll_get (apply_coll [] adds) (fst kv)))) (w_coll w).
-
-(* kf_links: the shared set holds a link that the pristine set did not hold *)
-Definition kf_links (w0 w : world) (c : call) : bool := c_links c && negb (links_sub (w_links w) (w_links w0)).
 
 (* ---------------------------------------------------------------- correspondence checker ---- *)
 (* observed after each call: the caller's heaps, links set and collection (structural snapshot), and the outcome *)
@@ -505,35 +492,24 @@ Definition out_matches (m : outcome) (o : oobs) : bool :=
   | _, _ => false
   end.
 
-(* every call is checked as a transition from the OBSERVED state before it.  For the two objects of the known findings
-   (links set, filter collection) the observed state after the call may be the model's (defect present) or the state
-   before the call (defect repaired: nothing written into the caller's object). *)
+(* every call is checked as a transition from the OBSERVED state before it: the caller's heaps, links set and filter
+   collection after the call are the model's (links and collection: unchanged), the planning outcome is the model's,
+   and -- the reuse half of the property -- as long as every earlier call left the features alone (copy_features=True)
+   the observed outcome equals the observed outcome of the same call on fresh equal objects. *)
 Definition obs_world (w : world) (b : cobs) : world :=
   {| hF := co_F b; hO := co_O b; w_links := co_links b; w_filters := w_filters w; w_coll := co_coll b |}.
 
-Fixpoint chk_calls (u : universe) (fuel : nat) (w : world) (h : list cobs) : bool :=
+Fixpoint chk_calls (u : universe) (fuel : nat) (w : world) (allcopy : bool) (h : list cobs) : bool :=
   match h with
   | [] => true
   | b :: t =>
     let (w', m) := plan_call u fuel w (co_call b) in
     list_eqb fobj_eqb (hF w') (co_F b) && list_eqb oobj_eqb (hO w') (co_O b)
-    && (links_eqb (w_links w') (co_links b) || links_eqb (w_links w) (co_links b))
-    && (coll_eqb (w_coll w') (co_coll b) || coll_eqb (w_coll w) (co_coll b))
+    && links_eqb (w_links w') (co_links b) && coll_eqb (w_coll w') (co_coll b)
     && out_matches m (co_out b)
-    && chk_calls u fuel (obs_world w b) t
+    && (if allcopy then co_same b else true)
+    && chk_calls u fuel (obs_world w b) (allcopy && c_copy (co_call b)) t
   end.
 
 Definition chk_args (c : universe * world * list cobs) : bool :=
-  match c with (u, w, h) => chk_calls u 8 w h end.
-
-(* the known-defect domains against reality: outside them (and as long as every earlier call left the features alone,
-   copy_features=True) the observed outcome with the shared objects equals the observed outcome with fresh ones *)
-Fixpoint chk_kf_calls (u : universe) (fuel : nat) (w0 w : world) (allcopy : bool) (h : list cobs) : bool :=
-  match h with
-  | [] => true
-  | b :: t =>
-    (if allcopy && negb (kf_filter u fuel w (co_call b)) && negb (kf_links w0 w (co_call b)) then co_same b else true)
-    && chk_kf_calls u fuel w0 (obs_world w b) (allcopy && c_copy (co_call b)) t
-  end.
-Definition chk_kf (c : universe * world * list cobs) : bool :=
-  match c with (u, w, h) => chk_kf_calls u 8 w w true h end.
+  match c with (u, w, h) => chk_calls u 8 w true h end.
